@@ -14,6 +14,7 @@
 package blobclient
 
 import (
+	"bytes"
 	"context"
 	"errors"
 	"fmt"
@@ -259,8 +260,19 @@ func (c *clusterClient) DownloadBlob(ctx context.Context, namespace string, d co
 
 	log.WithTraceContext(ctx).With("namespace", namespace, "digest", d.Hex()).Debug("Starting blob download from origin cluster")
 
+	// An origin may fail after part of the blob was already copied into dst
+	// (e.g. the connection drops mid-transfer). Before asking the next origin,
+	// the partial bytes must be discarded, else dst would end up holding the
+	// partial bytes followed by the full blob.
+	cw := &countingWriter{w: dst}
 	err := Poll(c.resolver, c.defaultPollBackOff(), d, func(client Client) error {
-		return client.DownloadBlob(ctx, namespace, d, dst)
+		if cw.n > 0 {
+			if err := discardWritten(dst, cw.n); err != nil {
+				return fmt.Errorf("discard partial download: %s", err)
+			}
+			cw.n = 0
+		}
+		return client.DownloadBlob(ctx, namespace, d, cw)
 	})
 	if httputil.IsNotFound(err) {
 		span.SetStatus(codes.Error, "blob not found")
@@ -274,6 +286,44 @@ func (c *clusterClient) DownloadBlob(ctx context.Context, namespace string, d co
 		log.WithTraceContext(ctx).With("namespace", namespace, "digest", d.Hex()).Debug("Blob download succeeded")
 	}
 	return err
+}
+
+// countingWriter counts the bytes written through it.
+type countingWriter struct {
+	w io.Writer
+	n int64
+}
+
+func (c *countingWriter) Write(p []byte) (int, error) {
+	n, err := c.w.Write(p)
+	c.n += int64(n)
+	return n, err
+}
+
+// discardWritten removes the last n bytes written to dst. Returns error if dst
+// does not support it, in which case dst must not be written to again.
+func discardWritten(dst io.Writer, n int64) error {
+	if dst == io.Discard {
+		return nil
+	}
+	switch w := dst.(type) {
+	case *bytes.Buffer:
+		w.Truncate(w.Len() - int(n))
+		return nil
+	case interface {
+		io.Seeker
+		Truncate(size int64) error
+	}:
+		offset, err := w.Seek(-n, io.SeekCurrent)
+		if err != nil {
+			return fmt.Errorf("seek: %s", err)
+		}
+		if err := w.Truncate(offset); err != nil {
+			return fmt.Errorf("truncate: %s", err)
+		}
+		return nil
+	}
+	return fmt.Errorf("%d bytes of a failed download were already written to %T", n, dst)
 }
 
 // PrefetchBlob preheats a blob in the origin cluster for downloading.
